@@ -152,10 +152,13 @@ class Gen:
         res = []
         k = r.choice([1, 1, 1, 2, 3])
         for _ in range(k):
-            kind = r.choice(["msg", "msg", "msg", "foreign", "topic"])
+            kind = r.choice(["msg", "msg", "msg", "msg", "msg", "msg", "foreign", "foreign", "topic", "topic", "null"])
             S["seq"] += r.randrange(1, 4)
-            res.append({"core": kind != "foreign", "topic": kind != "topic", "sender": r.choice(["s1", "s2", "s3"]),
-                        "seq": S["seq"], "cl": r.choice(CL_CLASSES)})
+            lg = {"core": kind not in ("foreign", "null"), "topic": kind not in ("topic", "null"), "sender": r.choice(["s1", "s2", "s3"]),
+                  "seq": S["seq"], "cl": r.choice(CL_CLASSES)}
+            if kind == "null":
+                lg["null"] = True      # a null entry in the receipt's log list (a sloppy node): skipped, never a message
+            res.append(lg)
         return res
 
     def mine_and_push(self, S):
@@ -325,17 +328,88 @@ def replay(work, scenarios, shards=4):
                 fh.write(json.dumps({"id": s["id"], "cfg": s["cfg"], "init": s["init"], "steps": s["steps"]}) + "\n")
         rc, out = vlib.run_test_binary(binary, "TestVerifEvmReplay", os.path.join(vlib.REPO, "node", "pkg", "ethereum"),
                                        env={"VERIF_SCENARIOS": scp, "VERIF_TRACE": trp, "VERIF_SEED": vlib.seed()}, timeout=1500)
+        crash = None
         if "VERIF-REPLAYED" not in out:
-            raise vlib.Broken("EVM harness did not complete (rc=%d):\n%s" % (rc, out[-4000:]))
-        return vlib.read_ndjson(trp)
+            crash = parse_crash(out)
+            if crash is None or crash["where"] != "code":
+                raise vlib.Broken("EVM harness did not complete (rc=%d):\n%s" % (rc, out[-4000:]))
+        return vlib.read_ndjson(trp), crash
 
     import time
     t0 = time.time()
     with concurrent.futures.ThreadPoolExecutor(max_workers=shards) as ex:
         res = list(ex.map(one, range(shards)))
-    lines = [ln for part in res for ln in part]
+    lines = [ln for part, _ in res for ln in part]
     lines.sort(key=lambda ln: (ln["t"], ln["n"]))
-    return lines, time.time() - t0, bwall
+    crashes = []
+    for part, crash in res:
+        if crash:
+            crash["last_lines"] = part[-12:]      # lines are flushed one by one: this is where the process died
+            crash["t"] = part[-1]["t"] if part else None
+            crashes.append(crash)
+    return lines, time.time() - t0, bwall, crashes
+
+
+def _slug(text, n=60):
+    text = re.sub(r"0x[0-9a-fA-F]+", "0x", text)
+    return re.sub(r"[^A-Za-z0-9]+", "-", text).strip("-")[:n].strip("-")
+
+
+def _short_func(fn):
+    fn = fn.strip()
+    if fn.endswith(")"):                         # drop the argument list: ...Run.func2({0x1, 0x2}, 0x3)
+        depth = 0
+        for i in range(len(fn) - 1, -1, -1):
+            if fn[i] == ")":
+                depth += 1
+            elif fn[i] == "(":
+                depth -= 1
+                if depth == 0:
+                    fn = fn[:i]
+                    break
+    fn = fn.split("/")[-1]                       # ethereum.(*Watcher).Run.func2
+    fn = re.sub(r"^ethereum\.", "", fn)
+    return re.sub(r"[^A-Za-z0-9_.]+", "", fn)
+
+
+def crash_frames(text):
+    """(function, file) pairs of the first goroutine of a Go panic / fatal-error dump (the one that crashed)."""
+    m = re.search(r"(?m)^(panic: .*|fatal error: .*)$", text)
+    if not m:
+        return None, []
+    rest = text[m.end():]
+    g = re.search(r"(?m)^goroutine \d+ \[[^\]]*\]:\n", rest)
+    if not g:
+        return m.group(1), []
+    block = rest[g.end():].split("\n\n")[0].splitlines()
+    frames = []
+    for i in range(0, len(block) - 1):
+        if block[i + 1].startswith("\t") and not block[i].startswith("\t"):
+            frames.append((block[i].strip(), block[i + 1].strip().split(" ")[0]))
+    return m.group(1), frames
+
+
+def parse_crash(text):
+    """An unrecovered panic / fatal error that killed the test process.  where = "code" when the innermost frame
+    that belongs to this project is in node/pkg/ethereum of the tree under test, "harness" when it is in an
+    injected harness file (then the check is broken, not the code)."""
+    msg, frames = crash_frames(text)
+    if msg is None:
+        return None
+    pkgdir = os.path.join(vlib.REPO, "node", "pkg", "ethereum") + os.sep
+    for fn, fl in frames:
+        if fl.startswith(pkgdir) and "zz_verif" not in fl:
+            return {"where": "code", "panic": msg, "func": _short_func(fn), "file": fl, "frames": frames[:12]}
+        if "/.build/" in fl or "zz_verif" in fl or "/harness/" in fl:
+            return {"where": "harness", "panic": msg, "func": _short_func(fn), "file": fl, "frames": frames[:12]}
+    return {"where": "unknown", "panic": msg, "func": "?", "file": "?", "frames": frames[:12]}
+
+
+def crash_signature(c):
+    msg = re.sub(r"^(panic|fatal error): ", "", c["panic"])
+    msg = re.sub(r"\[signal .*$", "", msg)
+    return "crash/%s/%s" % (c["func"], _slug(msg))
+
 
 
 def _validate_chunk(work, k, lines):
@@ -454,6 +528,17 @@ def signature(rej, line, prev):
         return "invariant"
     if ev == "Stall":
         return "stall/%s" % a.get("what", "?")
+    if ev == "RunExit":
+        # Watcher.Run returned although the scripted node was healthy: class = the error text up to its first detail
+        return "run-exit/%s" % _slug(str(a.get("err", "")).split(":")[0], 50)
+    if ev == "Crash":
+        msg, frames = crash_frames("panic: %s\n\n%s" % (a.get("panic", ""), a.get("stack", "")))
+        fn = "?"
+        for f, fl in frames:
+            if "/node/pkg/ethereum/" in fl and "/.build/" not in fl and "zz_verif" not in fl and "harness" not in fl:
+                fn = _short_func(f)
+                break
+        return "crash/%s/%s" % (fn, _slug(str(a.get("panic", ""))))
     hs = (spec.get("hs") or [None])[0]
     rs = (spec.get("rs") or [None])[0]
     pend = spec.get("pending") or []
